@@ -120,3 +120,13 @@ Proof. vm_compute. repeat split. Qed.
 Print Assumptions cm_old_bytes_reader_reads_outside_refuted.
 Print Assumptions cm_new_bytes_reader_rejects_those.
 Print Assumptions cm_old_stream_prefix_accepted_refuted.
+
+(* ---- the unrepaired constructor multiplied num_hashes * num_buckets in 32 bits (before fixes/11_count_min_product_overflow.patch) ---- *)
+Definition ncells_old (nh nb : N) : N := w32 (nh * nb).
+Definition ctor_ok_old (nh nb : N) : bool := (3 <=? nb) && (ncells_old nh nb <? 1073741824).
+(* num_buckets = 0x80000005 with num_hashes = 2: the old test passes and the table gets 10 cells for 2^32+10 logical cells, so every
+   later update / get_estimate indexes far outside it; the repaired test refuses the pair *)
+Theorem cm_old_ctor_product_wraps_refuted :
+  exists nh nb, ctor_ok_old nh nb = true /\ ncells_old nh nb = 10 /\ nh * nb = 4294967306 /\ ctor_ok nh nb = false.
+Proof. exists 2, 2147483653. repeat split; vm_compute; reflexivity. Qed.
+Print Assumptions cm_old_ctor_product_wraps_refuted.
